@@ -15,6 +15,9 @@ Norm(st) == [vers |-> {st.vers[i] : i \in 1..Len(st.vers)},
              kexs |-> {st.kexs[i] : i \in 1..Len(st.kexs)},
              curves |-> {st.curves[i] : i \in 1..Len(st.curves)},
              dhGroups |-> {st.dhGroups[i] : i \in 1..Len(st.dhGroups)},
+             rsaHashes |-> {st.rsaHashes[i] : i \in 1..Len(st.rsaHashes)},
+             ecdsaHashes |-> {st.ecdsaHashes[i] : i \in 1..Len(st.ecdsaHashes)},
+             rsaSchemes |-> {st.rsaSchemes[i] : i \in 1..Len(st.rsaSchemes)},
              minKey |-> st.minKey, maxKey |-> st.maxKey, etm |-> st.etm, ems |-> st.ems, reqEms |-> st.reqEms,
              rsl |-> st.rsl, alpn |-> st.alpn]
 \* RFC 8446 4.1.3: a TLS 1.3 server that negotiates an older version marks ServerHello.random; a TLS 1.3 client
